@@ -210,3 +210,6 @@ func (r *RoutingTable) VerifPrepareReport() (parts, backups []uint64, err error)
 	}
 	return rep.Partitions, rep.Backups, nil
 }
+
+// VerifWithThis returns a routing table that only knows who this member is (for the balancer's decision functions).
+func VerifWithThis(this discovery.Member) *RoutingTable { return &RoutingTable{this: this} }
